@@ -67,6 +67,15 @@ func (e *Exec) ascend(fr *Frame, st *BState, x *ssa.Call, args []SV) SV {
 	for pre := range keys {
 		st.hepoch[pre] = epochCounter
 	}
+	cbCells := map[*ssa.Alloc]bool{}
+	assignedCells(cf, map[*ssa.Function]bool{}, cbCells)
+	for al := range cbCells {
+		if _, ok := st.cells[al]; ok {
+			nv := e.freshSV(al.Type().(*types.Pointer).Elem(), "ascend."+al.Comment, st.reach, false)
+			e.saneInput(st, al.Type().(*types.Pointer).Elem(), nv, tTrue)
+			st.cells[al] = nv
+		}
+	}
 	if keys["$frontier"] {
 		old := e.frontier(st)
 		nf := e.fresh("ascend.frontier", SInt)
